@@ -97,6 +97,7 @@ var mutantCatalogue = map[string][]mutant{
 		{Name: "rollback forgets the replaced writes", File: "risc/app.go", Old: "\t\tfor _, overwritten := range ctx.transactionOverwritten[register] {\n\t\t\tif overwritten.sequenceID < sequenceID && (tu.sequenceID >= sequenceID || overwritten.sequenceID > tu.sequenceID) {\n\t\t\t\ttu = overwritten\n\t\t\t}\n\t\t}\n", New: ""},
 	},
 	"C07": {
+		{Name: "execute unit stays suspended after its store is done", File: "proc/mvp8-0/eu.go", Old: "\t\t\tif resp.done {\n\t\t\t\tu.Reset()\n\t\t\t}", New: "\t\t\tif resp.done {\n\t\t\t\t_ = u\n\t\t\t}"},
 		{Name: "completed read stays suspended at its last step", File: "proc/mvp7-1/cc.go", Old: "\t\tcc.read.Reset()\n\t\tdelete", New: "\t\tdelete"},
 		{Name: "completed read forgets its handle from the write-lock table", File: "proc/mvp7-0/cc.go", Old: "\t\tdelete(cc.rlockSems, getAlignedMemoryAddress(r.addrs))", New: "\t\tdelete(cc.lockSems, getAlignedMemoryAddress(r.addrs))"},
 		{Name: "decode fetches the instruction at index len", File: "proc/mvp7-0/du.go", Old: "if int(pc)/4 >= len(app.Instructions) {", New: "if int(pc)/4 > len(app.Instructions) {"},
